@@ -13,7 +13,7 @@ EXPLANATION = ("Decided from MIR: (R1) in EntryStore::finalize every call that c
                "EntryStore::add_entry returns the Bound obtained from the entry it pushes; (R4) in both value stores the sort precedes the "
                "assignment of value ids and `finalized = true` comes last. The stored reference value for a given graph is not decided."
                " (R3 Word) Word::get evaluates the stored closure at every call: no memoised value in `get` nor as a field of Word."
-               " Added later: (R5) a constructor given a Vow<EntryIdx> moves it whole into the entry; (R6) = C02-R1 for positions kept in signed columns; (R7) the transformation of the caller's values never evaluates a deferred word; (R1) no sort after a consumer. (R8) = C02-R16 for constant columns of references.")
+               " Added later: (R5) a constructor given a Vow<EntryIdx> moves it whole into the entry; (R6) = C02-R1 for positions kept in signed columns; (R7) the transformation of the caller's values never evaluates a deferred word; (R1) no sort after a consumer. (R8) = C02-R16 for constant columns of references. (R9) the entry stores are finalised in declaration order.")
 ASSUMPTIONS = ["rayon par_iter_mut().enumerate() yields (position, element) pairs", "atomics with Relaxed ordering are read after the join of finalisation",
                "rustc MIR construction and trait resolution"]
 
@@ -259,7 +259,29 @@ def r8_constant_reference_columns_keep_their_width(cx):
         cx.ob = orig
 
 
+def r9_stores_are_finalised_in_declaration_order(cx):
+    """an entry may refer to an entry of a store declared before its own: that store is sorted, and its positions are
+    final, by the time the referring store sizes its columns -- because DirectoryPackCreator::finalize finalises the
+    entry stores front to back. Walking them from the back (pop, rev, next_back, swap_remove) sizes the reference column on
+    insertion ranks and truncates the final positions when they are written."""
+    F = cx.F
+    f = F.one(impl_self="DirectoryPackCreator", item="finalize", closure=False)
+    b = F.deep_body(f, only=r"DirectoryPackCreator", closures=True)
+    fin = b.calls(r"EntryStoreTrait>::finalize$")
+    in_closure = [c for c in F.closures_of(f) if "blocks" in c and F.body(c).calls(r"EntryStoreTrait>::finalize$")]
+    if not fin and not in_closure:
+        raise AnchorLost("DirectoryPackCreator::finalize no longer finalises the entry stores")
+    back = []
+    for i, t in b.calls(r"Vec::<.*>::(pop|swap_remove|remove|reverse)$", r"Iterator>::rev$", r"DoubleEndedIterator>::(next_back|rfold|rev|nth_back|try_rfold|rfind)", r"slice::<impl \[.*\]>::(reverse|sort\w*|swap|rotate_\w+)"):
+        o = b.origins(t["args"][0]) if t["args"] else set()
+        if ("field", "entry_stores") in o or any(x[0] == "call" and x[1] in {j for j, _ in fin} for x in o):
+            back.append("%s at line %s" % (callee_str(t).split("::<")[0].split("::")[-1], t.get("ln")))
+    cx.ob("R9", "R9/stores-finalised-front-to-back", not back, f,
+          "the entry stores are finalised in the order they were declared (walked from the back or reordered: %s)" % (back or "no"))
+
+
 RULES = [
+    ("R9", r9_stores_are_finalised_in_declaration_order, 1),
     ("R8", r8_constant_reference_columns_keep_their_width, 2),
     ("R7", r7_deferred_words_stay_deferred, 1),
     ("R6", r6_positions_in_signed_columns_keep_their_width, 3),
